@@ -1194,7 +1194,7 @@ func findInjectorBuild(info *types.Info, fn *ast.FuncDecl) (*ast.CallExpr, error
 			if numStatements > 1 {
 				invalid = true
 			}
-			call, ok := stmt.X.(*ast.CallExpr)
+			call, ok := astutil.Unparen(stmt.X).(*ast.CallExpr)
 			if !ok {
 				continue
 			}
@@ -1202,7 +1202,7 @@ func findInjectorBuild(info *types.Info, fn *ast.FuncDecl) (*ast.CallExpr, error
 				if len(call.Args) != 1 {
 					continue
 				}
-				call, ok = call.Args[0].(*ast.CallExpr)
+				call, ok = astutil.Unparen(call.Args[0]).(*ast.CallExpr)
 				if !ok {
 					continue
 				}
